@@ -371,7 +371,8 @@ Lemma same3_setg st f x : same3 st (setg st f x). Proof. unfold same3; cbn; auto
 Lemma same3_seth st f x : same3 st (seth st f x). Proof. unfold same3; cbn; auto. Qed.
 Lemma same3_setc st f x : same3 st (setc st f x). Proof. unfold same3; cbn; auto. Qed.
 Lemma same3_addlive st k : same3 st (addlive st k). Proof. unfold same3; cbn; auto. Qed.
-#[local] Hint Resolve same3_refl same3_setf same3_setm same3_setg same3_seth same3_setc same3_addlive : s3.
+Lemma same3_setk st k x : same3 st (setk st k x). Proof. unfold same3; cbn; auto. Qed.
+#[local] Hint Resolve same3_refl same3_setf same3_setm same3_setg same3_seth same3_setc same3_addlive same3_setk : s3.
 
 Lemma same3_release st w : same3 st (release_waiter st w).
 Proof. unfold release_waiter. destruct w as [k i]. destruct (k =? 1); [|destruct (k =? 2)]; auto with s3. Qed.
@@ -878,6 +879,12 @@ Proof.
     split; [cbn [o_cfr]; intros Hh; rewrite A1, (A4 Hh); lia|].
     unfold sizes. rewrite S1. reflexivity.
   - (* PMove *)
+    match goal with |- context [if ?c then _ else (st, rejected)] => destruct c end; cbn [fst snd]; [|apply rejected_ok; exact I].
+    apply simple_ok; auto with s3; try apply c0_frames; cbn; try reflexivity; try lia; intros; lia.
+  - (* CfStart *)
+    match goal with |- context [if ?c then _ else (st, rejected)] => destruct c end; cbn [fst snd]; [|apply rejected_ok; exact I].
+    destruct (mode =? 3); cbn [fst snd]; apply simple_ok; auto with s3; try apply c0_frames; cbn; try reflexivity; try lia; intros; lia.
+  - (* CfResolve *)
     match goal with |- context [if ?c then _ else (st, rejected)] => destruct c end; cbn [fst snd]; [|apply rejected_ok; exact I].
     apply simple_ok; auto with s3; try apply c0_frames; cbn; try reflexivity; try lia; intros; lia.
   - (* OBad *) cbn [fst snd]. apply rejected_ok; exact I.
